@@ -24,6 +24,17 @@ UNDECIDED = (
 def run(F, rep, tier):
     rep.explanation = EXPLANATION
     rep.undecided = UNDECIDED
+    dependency_visit(F, rep)
+    # Definition: `var` must be used (only) to drop the self edge of function values
+    partition(F, rep)
+    cycle(F, rep)
+    start_last(F, rep)
+    containers(F, rep)
+    init_order_keys(F, rep)
+
+
+def dependency_visit(F, rep):
+    """every variable reference anywhere inside a top-level statement becomes a dependency edge"""
     fold = {DEP + "statement_dependencies", DEP + "dependencies", DEP + "ty_dependency"}
     child_types = ["name_resolution::Expression", "name_resolution::Statement", "name_resolution::IfBranch",
                    "name_resolution::CaseBranch", "name_resolution::Type"]
@@ -60,13 +71,6 @@ def run(F, rep, tier):
         v.run_fn(F.fn(p))
     rep.floor("VISIT-dep", "match arms", v.arms_seen, 35)
     rep.floor("VISIT-dep", "child fields", v.children_checked, 40)
-
-    # Definition: `var` must be used (only) to drop the self edge of function values
-    partition(F, rep)
-    cycle(F, rep)
-    start_last(F, rep)
-    containers(F, rep)
-    init_order_keys(F, rep)
 
 
 def partition(F, rep):
